@@ -26,7 +26,7 @@ RULE = ('fp16: every 16-bit pattern once unsigned and once as int16 (exhaustive)
         'pair, packet bytes) that reached a deciding monitor.')
 ASSUMPTIONS = ['numpy.float16 conversion is IEEE-754 binary16', 'struct module packs float32 correctly',
                'LED ring memory layout: byte0=RRRRRGGG byte1=GGGBBBBB (firmware ledring12 reader)']
-REQUIRED = ['mon.traj_elements_serialised_again', 'mon.fp16', 'mon.quat', 'mon.traj', 'mon.led', 'mon.led_timing', 'mon.range', 'mon.lh_angle',
+REQUIRED = ['mon.led_rings_with_one_colour_at_several_intensities', 'mon.traj_elements_serialised_again', 'mon.fp16', 'mon.quat', 'mon.traj', 'mon.led', 'mon.led_timing', 'mon.range', 'mon.lh_angle',
             'mon.fp16_contract', 'mon.traj_segment_boundary_values']
 EXHAUSTIVE = {'quick': False, 'thorough': False}
 EXHAUSTIVE_NOTE = 'the fp16 part (131 072 evaluations) is exhaustive in both tiers; the other parts are sampled'
@@ -431,6 +431,33 @@ def run_led(desc, ctx):
             ctx.violate('led:black-not-zero', {'ch': ch, 'intensity': inten, 'v': table[(0, inten)]})
     if table[(255, 100)] != maxf:
         ctx.violate('led:white-not-full-scale', {'ch': ch, 'v': table[(255, 100)], 'want': maxf})
+    # whole rings: every LED is written at its own colour and intensity whatever its neighbours show (one colour as a
+    # brightness gradient, mixed colours); the field of this channel must be the one found for that level and intensity
+    rrnd = random.Random(desc.get('seed', 0) * 7 + ch)
+    intens = list(range(0, 101, desc['istep']))
+    for ring in range(40):
+        base = [rrnd.randrange(256) for _ in range(3)]
+        setup = []
+        for j, led in enumerate(mem.leds):
+            col = list(base) if ring % 2 == 0 else [rrnd.randrange(256) for _ in range(3)]
+            if ring % 4 == 2 and j % 3 == 0:
+                col = [255, 255, 255]
+            inten = rrnd.choice(intens)
+            led.set(col[0], col[1], col[2])
+            led.intensity = inten        # (LED.set() takes an intensity of 0 as 'not given'; the attribute is the way to set it)
+            setup.append((col, inten))
+        h.writes.clear()
+        mem.write_data(None)
+        data = h.writes[0][1]
+        ctx.count('mon.led_rings_with_one_colour_at_several_intensities', 1 if ring % 2 == 0 else 0)
+        for j, (col, inten) in enumerate(setup):
+            f = _fields(data[2 * j], data[2 * j + 1])
+            ctx.evals()
+            if f[ch] != table[(col[ch], inten)]:
+                ctx.violate('led:ring:led-not-written-at-its-own-colour-and-intensity',
+                            {'ch': ch, 'led': j, 'colour': col, 'intensity': inten, 'field': f[ch], 'alone_it_is': table[(col[ch], inten)],
+                             'ring': [(c, i) for (c, i) in setup][:12]})
+                break
     # all channels together
     for led in mem.leds:
         led.set(255, 255, 255, 100)
